@@ -971,7 +971,12 @@ def parse_invalid_expr(s, loc, toks):
 @parse_action(atom)
 def parse_atom(toks):
     loc_start, toks, loc_end = toks
-    return toks
+    *ops, node = toks
+    for op in reversed(ops):
+        node = UnaryOp(node, Operator.unary_op_from_token(op))
+        node.loc_start = loc_start
+        node.loc_end = loc_end
+    return node
 
 
 @parse_action(builtin_func)
